@@ -8,3 +8,5 @@ import MxV.Gen.Templates
 import MxV.Gen.Elements
 import MxV.Gen.Attrs
 import MxV.Gen.Simple
+import MxV.Core.Specs
+import MxV.Model.Msimple
